@@ -242,4 +242,35 @@ theorem copy_ends (esc : Option α) (fin fout : List α → List α) (evs : List
         | some i => rw [copy_userIn_hit e fin fout s d r i hf]; left; rfl
         | none => rw [copy_userIn_miss e fin fout s d r hf]; exact ih _ hs
 
+/-! ### `__interact_writen`: the child's terminal may take fewer bytes than offered -/
+
+/-- pieces written by the write-all loop when the i-th `os.write` accepts at most `ks[i]` bytes (at least one: a blocking write of a
+    non-empty buffer does not return 0); once the schedule is used up the rest is taken whole -/
+def writen : List Nat → List α → List (List α)
+  | _, [] => []
+  | [], d => [d]
+  | k :: ks, x :: d =>
+      let n := max 1 (min k (d.length + 1))
+      (x :: d).take n :: writen ks ((x :: d).drop n)
+
+/-- whatever the child's terminal accepts per write, the loop delivers exactly the bytes it was given, in order -/
+theorem writen_delivers_all (ks : List Nat) (d : List α) : (writen ks d).flatten = d := by
+  induction ks generalizing d with
+  | nil => cases d <;> simp [writen]
+  | cons k ks ih =>
+    cases d with
+    | nil => simp [writen]
+    | cons x d =>
+      rw [writen]
+      simp only [List.flatten_cons]
+      rw [ih]
+      exact List.take_append_drop _ _
+
+/-- every piece is non-empty and no larger than what the terminal accepts for that write -/
+theorem writen_pieces_bounded (k : Nat) (ks : List Nat) (x : α) (d : List α) (hk : 1 ≤ k) :
+    ((writen (k :: ks) (x :: d)).head?.map List.length).getD 0 ≤ k ∧ 1 ≤ ((writen (k :: ks) (x :: d)).head?.map List.length).getD 0 := by
+  rw [writen]
+  simp only [List.head?_cons, Option.map_some, Option.getD_some, List.length_take, List.length_cons]
+  omega
+
 end Ia
